@@ -43,6 +43,24 @@ REMOVE_SPEC = """requires wf(*old(self)),
                 && forall|k: int| 0 <= k < final(self).graph@.len() ==> (#[trigger] final(self).graph@[k]).id == old(self).graph@[src_idx(k, old(self).index@[*path] as int)].id
                         && final(self).graph@[k].depends_on@ == old(self).graph@[src_idx(k, old(self).index@[*path] as int)].depends_on@.remove(*path),"""
 
+GETMUT_SPEC = """requires wf(*old(self)),
+        ensures final(self).index@ == old(self).index@, match res {
+            // a mutable borrow of the node the index points at: whatever is written through it lands at that position and nowhere else
+            Some(n) => has_path(*old(self), *path) && *n == old(self).graph@[old(self).index@[*path] as int] && final(self).graph@ == old(self).graph@.update(old(self).index@[*path] as int, *final(n)),
+            None => !has_path(*old(self), *path) && final(self).graph@ == old(self).graph@,
+        },"""
+
+INC_SPEC = """requires wf(*old(self)), !is_dir(*%(r)s), !is_dir(%(d)s), old(self).graph@.len() < usize::MAX,
+        ensures wf(*final(self)),
+            // mid: the vector after the referrer has been registered (if it was not)
+            exists|mid: Seq<Node>| #[trigger] is_mid(old(self).graph@, mid, *%(r)s) && match res {
+                // refused: only when the edge would close a cycle; nothing but the registration of the referrer has happened
+                Err(_) => *%(r)s != %(d)s && reach_g(mid, %(d)s, *%(r)s) && final(self).graph@ == mid,
+                // accepted: a self-import changes nothing more; otherwise the edge closes no cycle and exactly that edge is added
+                Ok(_) => if *%(r)s == %(d)s { final(self).graph@ == mid }
+                         else { !reach_g(mid, %(d)s, *%(r)s) && added_edge(mid, final(self).graph@, *%(r)s, %(d)s) },
+            },"""
+
 RENAME_SPEC = """requires wf(*old(self)), !has_path(*old(self), new), new != *old_path,   // the new path is not registered yet
         ensures wf(*final(self)), final(self).graph@.len() == old(self).graph@.len(),
             // every node keeps its place; the old path is replaced by the new one as a node id and in every dependency set
@@ -98,7 +116,12 @@ def build(run):
     nn.rw('R5', r':\s*U\b', ': ()', expect='*')
     nn.contract("ensures res.id == id, res.depends_on@ == depends_on@,")
     unit.add(nn)
+    pd = Snippet(ts.fn('push_dep', impl=r'<T: [^>]*> Node<T, U>'), 'Node::push_dep')
+    pd.rw('R5', r':\s*T\b', ': u64', expect='*')
+    pd.contract("ensures final(self).id == old(self).id, final(self).depends_on@ == old(self).depends_on@.insert(dep),")
+    unit.add(pd)
     unit.raw("}\n")
+    unit.add(Snippet(g.item('enum', 'IncRefError'), 'enum IncRefError'))
     mg = Snippet(g.item('struct', 'ModuleGraph'), 'struct ModuleGraph')
     mono(mg)
     unit.add(mg)
@@ -192,6 +215,38 @@ def build(run):
         f.after_loop(0, "            proof { lemma_shifted(*old(self), *self, *path, verif_keys@); }")
         f.insert_at(r'let mut verif_n: usize = 0;', "        let ghost verif_mid = self.graph@;", where='before')
         f.loop_spec(1, RETAIN_LOOP)
+        unit.add(f)
+    # ---- get_mut_node (+ vacuity probe)
+    for probe in (False, True):
+        f = Snippet(g.fn('get_mut_node', impl=r'ModuleGraph'), 'vacuity-probe ModuleGraph::get_mut_node' if probe else 'ModuleGraph::get_mut_node')
+        mono(f)
+        rules.strip_vis_attrs(f)
+        f.rw('R4', r'self\.index\.get\(path\)\.map\(\|&(\w+)\| &mut self\.graph\[\1\]\)', r'match self.index.get(path) { Some(verif_r) => { let \1 = *verif_r; Some(&mut self.graph[\1]) }, None => None }', expect=1)
+        if probe:
+            f.rename_fn('get_mut_node__vacuity_probe')
+            run.extra.setdefault('vacuity_probe_labels', []).append(f.label)
+        f.contract(GETMUT_SPEC.split('ensures')[0] + 'ensures false,' if probe else GETMUT_SPEC)
+        unit.add(f)
+    # ---- inc_ref (+ vacuity probe); deep_depends_on carries an ASSUMED contract (reachability), stub in the prelude
+    for probe in (False, True):
+        f = Snippet(g.fn('inc_ref', impl=r'ModuleGraph'), 'vacuity-probe ModuleGraph::inc_ref' if probe else 'ModuleGraph::inc_ref')
+        mono(f)
+        rules.strip_vis_attrs(f)
+        ms = re.search(r'fn inc_ref\(\s*&mut self,\s*(\w+): &u64,\s*(\w+): u64,?\s*\)', make_mask(f.text))
+        if not ms:
+            raise Undecided("ModuleGraph::inc_ref: signature (&mut self, referrer: &path, depends_on: path) not found")
+        R, D = ms.group(1), ms.group(2)
+        f.rw('R4', r'\b%s\.is_dir\(\)' % D, 'w_is_dir(&%s)' % D, expect=1)
+        f.rw('R4', r'\bDEBUG_MODE\b', 'w_debug_mode()', expect='*')
+        rules.aborts(f)
+        if probe:
+            f.rename_fn('inc_ref__vacuity_probe')
+            run.extra.setdefault('vacuity_probe_labels', []).append(f.label)
+        spec = INC_SPEC % {"r": R, "d": D}
+        f.contract(spec.split('ensures')[0] + 'ensures false,' if probe else spec)
+        f.insert_at(r'self\.add_node_if_none\(%s\);' % R, "        proof { reveal_mid(*old(self), *self, *%s); }" % R, where='after')
+        f.insert_at(r'self\.get_mut_node\(%s\)' % R, "        let ghost verif_m = *self;", where='before')
+        f.insert_before_tail("        proof { lemma_edge_added(verif_m, *self, *%s, %s); }" % (R, D))
         unit.add(f)
     # ---- rename_path (+ vacuity probe)
     for probe in (False, True):
